@@ -1001,7 +1001,9 @@ def explore(res, tier, have_driver, r):
     import multiprocessing
     jobs = make_jobs(tier, r)
     with multiprocessing.get_context('fork').Pool(min(len(jobs), max(8, min(16, os.cpu_count() or 8)))) as pool:
-        outs = pool.map(work, jobs, chunksize=1)
+        # (a worker that never comes back - a schedule that deadlocks outside the scheduler's view - must end the check as a
+        # harness error, exit 2, not hang it)
+        outs = pool.map_async(work, jobs, chunksize=1).get(timeout=2400 if tier == 'quick' else 14400)
     rn = Runner(res, have_driver)
     if rn.missing:
         res.corr_mismatch.append({'case': {'file': 'DT_String.py'}, 'impl': rn.missing, 'model': 'test / writeBlocks / writeFlag / readBlocks',
@@ -1188,7 +1190,7 @@ def aged(res, tier, r):
                 for a, b in ((1, 0), (0, 1)):
                     tasks += [(name, at - 1 - short, a, b, 1, sh, nsh, owner) for sh in range(nsh)]
     with multiprocessing.get_context('fork').Pool(min(len(tasks), max(8, min(16, os.cpu_count() or 8)))) as pool:
-        outs = pool.map(aged_task, tasks, chunksize=1)
+        outs = pool.map_async(aged_task, tasks, chunksize=1).get(timeout=1800)
     for (fails, errors, n), task in zip(outs, tasks):
         res.evaluations += n
         res.count('schedule=aged-process-first-renderings-1-preemption', n)
